@@ -10,7 +10,8 @@ RULES = {
     "C01": "non-trivial = converged case with >= 2 element kinds on one bus, one of them voltage dependent (ZIP load with "
            "voltage_depend_loads, shunt, ward or xward)",
     "C03": "non-trivial = converged case with >= 3 optional branches in service (ring line, trafo3w, impedance, impedance switch, dcline)",
-    "C04": "non-trivial = converged AC case with a ZIP load under voltage_depend_loads, a shunt, or enforced tight reactive limits",
+    "C04": "non-trivial = converged AC case with a ZIP load under voltage_depend_loads, a shunt, or enforced tight reactive limits "
+           "(staggered_limit_cases: limits that become binding in successive passes of the enforcement)",
     "C10": "non-trivial = converged AC case with distributed_slack and >= 2 participants with positive weight",
 }
 
@@ -69,12 +70,13 @@ def run(tier, seed, replay=None, prop="C01"):
     conv = [c for c in cases if c["conv"]]
     v.coverage = {
         "evaluations": len(cases), "distinct_nontrivial": len({repr(c["cfg"]) for c in cases if nontrivial(prop, c)}),
-        "rule": "states of BalanceNet.tla: corner configurations (all on / all off / every single element toggled x 6 option sets) plus "
-                "a TLC RandomSubset (seeded) of the full product of 21 element switches x 10 option dimensions, filtered by the spec's "
+        "rule": "states of BalanceNet.tla: corner configurations (all on / all off / every single element toggled x 15 option sets) plus "
+                "a TLC RandomSubset (seeded) of the full product of 22 element switches x 15 option dimensions, filtered by the spec's "
                 "WellFormed; " + RULES[prop],
         "states": states + st["states"], "transitions": trans + st["generated"], "traces_validated_against_impl": len(cases),
         "converged": len(conv), "not_converged": len(cases) - len(conv), "errors": sorted({c["err"] for c in cases if c["err"]}),
         "dc_cases": sum(1 for c in cases if c["cfg"]["mode"] == "dc"),
+        "staggered_limit_cases": sum(1 for c in cases if c["conv"] and c["inp"].get("stag")),
         "samples": [{"cfg": c["cfg"], "bus_vm": c["bus"]["vm"], "node_p": {k: x["p"] for k, x in c["node"].items()}} for c in cases[:2]],
     }
     v.assumptions = ["one template network (6 buses, 9 branches, 17 bus elements); parameters from a fixed level table",
